@@ -215,6 +215,5 @@ Proof. destruct a, b; cbn; split; intros; congruence. Qed.
 Lemma side_eq_dec (a b : side) : {a = b} + {a <> b}.
 Proof. decide equality. Qed.
 
-Definition other (sd : side) : side := match sd with Par => Txn | Txn => Par end.
 Lemma other_neq sd : sd <> other sd.
 Proof. destruct sd; discriminate. Qed.
